@@ -1,4 +1,4 @@
-From AV Require Import Lib.Base Model.Multipart.
+From AV Require Import Lib.Base Model.Multipart Model.MultipartSpec.
 Require Extraction.
 Require Import ExtrOcamlBasic.
-Extraction "model.ml" keep run encode size.
+Extraction "model.ml" keep run encode size spec_decode.
